@@ -155,6 +155,10 @@ def ident_site(repo: Repo) -> List[Ob]:
             # string/dict membership etc.: only subsystem-ish probes
             if isinstance(cont, (ast.Constant, ast.Dict)) or isinstance(probe, ast.Constant):
                 continue
+            if isinstance(cont, ast.Name) and any(isinstance(getattr(st, "value", None), ast.Dict) and
+                                                  src(st.targets[0] if isinstance(st, ast.Assign) else st.target) == cont.id
+                                                  for st in fi.module.tree.body if isinstance(st, (ast.Assign, ast.AnnAssign))):
+                continue      # key lookup in a module-level table
             if how == "in" and isinstance(cont, ast.Name) and cont.id in ("kwargs", "context"):
                 continue
             if isinstance(probe, ast.Attribute) and probe.attr in ("uid", "_uid", "composite_uid"):
